@@ -722,6 +722,24 @@ def rule_N4(ctx):
             recv_ty = body.get("recv_ty", "") if body.get("k") == "MethodCall" else ""
             prim = recv_ty.lstrip("&").strip() in ("i32", "f64", "i64", "f32")
             r.examine((f["path"], loc(arm)), True, {"arm": loc(arm), "ordering_from": last(d) if d else body.get("k"), "on": recv_ty})
+            # operand order: the receiver derives from the payload bound on the self side, the argument from the other side
+            if ok and prim and body.get("k") == "MethodCall" and body.get("args"):
+                pat = arm["pat"]
+                while pat.get("k") in ("Ref", "Deref"):
+                    pat = pat["pat"]
+                if pat.get("k") == "Tuple" and len(pat["pats"]) == 2:
+                    left_l = set(b["lid"] for b in walk(pat["pats"][0]) if b.get("k") == "Binding")
+                    right_l = set(b["lid"] for b in walk(pat["pats"][1]) if b.get("k") == "Binding")
+                    recv_l = set(x["lid"] for x in walk(body["recv"]) if x.get("k") == "Path" and x.get("res") == "local")
+                    arg_l = set(x["lid"] for x in walk(body["args"][0]) if x.get("k") == "Path" and x.get("res") == "local")
+                    if (recv_l & right_l and not recv_l & left_l) or (arg_l & left_l and not arg_l & right_l):
+                        vn = [last((q.get("def") or "?")) for q in pat["pats"]]
+                        for qi, q in enumerate(pat["pats"]):
+                            while q.get("k") in ("Ref", "Deref"):
+                                q = q["pat"]
+                            vn[qi] = last(q.get("def") or "?")
+                        r.finding(f["path"], "operands-swapped:" + ",".join(vn), loc(arm),
+                                  "an arm of SimpleNumber::partial_cmp compares other with self (the receiver of partial_cmp is the right-hand payload): for that pair of representations `a < b` answers `b < a`")
             if not (ok and prim):
                 inner = [last(callee(x) or "") for x in walk(arm["body"]) if x.get("k") in ("Call", "MethodCall")]
                 r.finding(f["path"], "ordering-source:" + "/".join(sorted(set(i for i in inner if i)) or ["?"]), loc(arm),
